@@ -216,7 +216,7 @@ def eval_def(name, val):
     return None
 
 
-def find_witness(neg_goal, facts, dom=4, max_atoms=7, opaque=lambda a: a.startswith('?'), order=None):
+def find_witness(neg_goal, facts, dom=4, max_atoms=11, opaque=lambda a: a.startswith('?'), order=None):
     """Search a valuation of the atoms (0..dom) satisfying every fact connected to neg_goal
     and neg_goal >= 0.  Returns dict or None; returns 'opaque' when an opaque atom is
     involved, 'toomany' when more than max_atoms atoms are connected."""
@@ -306,22 +306,89 @@ def find_witness(neg_goal, facts, dom=4, max_atoms=7, opaque=lambda a: a.startsw
         al = order(al)
     # nested definitions are resolved in name-length order (arguments are shorter than the atoms built from them)
     dl = sorted([a for a in atoms if a in DEFS], key=len)
-    for vals in itertools.product(range(dom + 1), repeat=len(al)):
-        v = dict(zip(al, vals))
-        ok = True
+    return _search(al, dl, conn, neg_goal, dom)
+
+
+def _search(al, dl, conn, neg_goal, dom):
+    """backtracking enumeration: a constraint is checked as soon as all its atoms have a value"""
+    # order atoms so that those of the goal and of many constraints come first
+    weight = {a: 0 for a in al}
+    for f in conn + [neg_goal]:
+        for a in f.atoms():
+            if a in weight:
+                weight[a] += 1
+    al = sorted(al, key=lambda a: (-weight[a], a))
+    pos = {a: i for i, a in enumerate(al)}
+    defdeps = {}
+    for d in dl:
+        deps = set()
+        stack = [d]
+        while stack:
+            x = stack.pop()
+            for y in DEFS[x][1].atoms() | DEFS[x][2].atoms():
+                if y in DEFS:
+                    stack.append(y)
+                else:
+                    deps.add(y)
+        defdeps[d] = max([pos[y] for y in deps if y in pos] + [-1])
+    cons = []
+    for f in conn + [neg_goal]:
+        lvl = -1
+        for a in f.atoms():
+            lvl = max(lvl, pos[a] if a in pos else defdeps.get(a, len(al) - 1))
+        cons.append((lvl, f))
+    by_level = {}
+    for lvl, f in cons:
+        by_level.setdefault(lvl, []).append(f)
+    defs_at = {}
+    for d in dl:
+        defs_at.setdefault(defdeps[d], []).append(d)
+    v = {}
+    budget = [400000]
+
+    def rec(i):
+        if i == len(al):
+            return dict(v)
+        a = al[i]
+        for x in range(dom + 1):
+            budget[0] -= 1
+            if budget[0] < 0:
+                return 'toomany'
+            v[a] = x
+            ok = True
+            added = []
+            for d in sorted(defs_at.get(i, []), key=len):
+                try:
+                    dv = eval_def(d, v)
+                except KeyError:
+                    dv = None
+                if dv is None:
+                    ok = False
+                    break
+                v[d] = dv
+                added.append(d)
+            if ok:
+                for f in by_level.get(i, []):
+                    if f.eval(v) < 0:
+                        ok = False
+                        break
+            if ok:
+                r = rec(i + 1)
+                if r is not None:
+                    return r
+            for d in added:
+                v.pop(d, None)
+        v.pop(a, None)
+        return None
+    if not al:
         for d in dl:
-            try:
-                x = eval_def(d, v)
-            except KeyError:
-                x = None
-            if x is None:
-                ok = False
-                break
-            v[d] = x
-        if not ok:
-            continue
-        if neg_goal.eval(v) < 0:
-            continue
-        if all(f.eval(v) >= 0 for f in conn):
-            return v
-    return None
+            dv = eval_def(d, v)
+            if dv is None:
+                return None
+            v[d] = dv
+        return dict(v) if all(f.eval(v) >= 0 for f in conn + [neg_goal]) else None
+    # constraints without atoms at any level (constants)
+    for f in by_level.get(-1, []):
+        if not f.atoms() and f.const_value() is not None and f.const_value() < 0:
+            return None
+    return rec(0)
